@@ -26,7 +26,7 @@ namespace rkcommon {
     inline scalar_t area(const box_t<scalar_t, 3, A> &b)
     {
       const auto size = b.size();
-      return 2.f * (size.x * size.y + size.x * size.z + size.y * size.z);
+      return scalar_t(2) * (size.x * size.y + size.x * size.z + size.y * size.z);
     }
 
     /*! return the volume of the 3D box - undefined for empty boxes */
